@@ -10,6 +10,7 @@ import (
 	"math/rand"
 	"os"
 	"reflect"
+	"runtime/debug"
 	"sort"
 	"strings"
 
@@ -29,6 +30,7 @@ type SDOp struct {
 	Txn      map[string][]model.Ent `json:"txn,omitempty"`
 	Prefixed bool                   `json:"prefixed,omitempty"`
 	Reader   int                    `json:"reader,omitempty"`
+	To       string                 `json:"to,omitempty"` // rename target
 }
 
 type SDCase struct {
@@ -146,6 +148,7 @@ func hasTag(tags []string, t string) bool {
 
 // sdRun holds the state of one differential run.
 type sdRun struct {
+	dir    string
 	ctx    *Ctx
 	id     string
 	c      SDCase
@@ -163,6 +166,8 @@ type sdRun struct {
 	paged    []*sdPaged
 	readers  []*sdReaderState
 	nQueries int64
+	extra    func(op SDOp) // property-specific checks after each op (C07, C19)
+	mg       *mgmtState
 }
 
 type sdSnap struct {
@@ -189,6 +194,14 @@ type sdReaderState struct {
 	step  int
 	token uint64
 	acc   []obs.Rec
+}
+
+func (s *sdRun) mainProp() string {
+	ps := splitComma(s.ctx.Arg("props", "C01"))
+	if len(ps) == 0 {
+		return "C01"
+	}
+	return ps[0]
 }
 
 func (s *sdRun) viol(prop, class, msg string, exp, got any) {
@@ -230,8 +243,7 @@ func runSDCase(ctx *Ctx, c SDCase) {
 	dir := ctx.NewDir("sd")
 	defer os.RemoveAll(dir)
 	core := hub.OpenCore(dir)
-	defer core.Close()
-	s := &sdRun{ctx: ctx, id: id, c: c, core: core, m: model.New(), vocab: gen.NewVocab(c.NIDs, 3, 3),
+	s := &sdRun{ctx: ctx, id: id, c: c, core: core, dir: dir, m: model.New(), vocab: gen.NewVocab(c.NIDs, 3, 3),
 		seen: map[string]bool{}, rec: map[string][]uint64{}, iids: map[string]uint64{}}
 	for _, d := range c.Datasets {
 		if _, err := core.Dsm.CreateDataset(d, nil); err != nil {
@@ -243,9 +255,10 @@ func runSDCase(ctx *Ctx, c SDCase) {
 	for _, rd := range c.Readers {
 		s.readers = append(s.readers, &sdReaderState{ds: rd.DS, lim: rd.Limits})
 	}
+	defer func() { s.core.Close() }()
 	defer func() {
 		if p := recover(); p != nil {
-			s.viol("C01", "panic", fmt.Sprintf("panic in read/write API: %v", p), nil, nil)
+			s.viol(s.mainProp(), "panic", fmt.Sprintf("panic in read/write API: %v", p), nil, string(debug.Stack()))
 		}
 	}()
 	for i, op := range c.Ops {
@@ -254,7 +267,7 @@ func runSDCase(ctx *Ctx, c SDCase) {
 		err := s.apply(op)
 		ctx.Out.Ack(id, i, err)
 		if err != nil {
-			s.viol("C01", "write-error", "accepted-shape write returned error: "+err.Error(), nil, op)
+			s.viol(s.mainProp(), "write-error", "accepted-shape operation returned error: "+err.Error(), nil, op)
 			break
 		}
 		s.checkAll(op)
@@ -328,6 +341,8 @@ func (s *sdRun) apply(op SDOp) error {
 		s.m.ApplyTxn(op.Txn)
 	case "read":
 		s.stepReader(s.readers[op.Reader])
+	default:
+		return s.applyMgmt(op)
 	}
 	return nil
 }
@@ -450,15 +465,24 @@ func recStr(rs []obs.Rec) []string {
 
 func (s *sdRun) scopes() [][]string {
 	sc := [][]string{nil}
-	for _, d := range s.c.Datasets {
+	ds := s.dsNames()
+	for _, d := range ds {
 		sc = append(sc, []string{d})
 	}
-	sc = append(sc, []string{s.c.Datasets[0], s.c.Datasets[1]})
+	if len(ds) >= 2 {
+		sc = append(sc, []string{ds[0], ds[1]})
+	}
 	return sc
 }
 
+// dsNames returns the names of the datasets that are alive in the model.
+func (s *sdRun) dsNames() []string { return s.m.LiveNames() }
+
 func (s *sdRun) checkAll(op SDOp) {
 	ts := touched(op)
+	if isMgmt(op) {
+		ts = s.dsNames()
+	}
 	for _, d := range ts {
 		if !s.alignFeed(d) {
 			// hub and model diverged: let the C01 oracle judge this op, then stop the case
@@ -496,30 +520,33 @@ func (s *sdRun) checkAll(op SDOp) {
 			s.stepPaged()
 		}
 	}
+	if s.extra != nil {
+		s.extra(op)
+	}
 }
 
 func (s *sdRun) finish() {
-	for _, d := range s.c.Datasets {
+	for _, d := range s.dsNames() {
 		if !s.alignFeed(d) {
 			s.abort = true
 		}
 	}
 	if s.abort {
 		if s.ctx.Has("C01") {
-			for _, d := range s.c.Datasets {
+			for _, d := range s.dsNames() {
 				s.checkC01Dataset(d)
 			}
 		}
 		return
 	}
 	if s.ctx.Has("C01") {
-		for _, d := range s.c.Datasets {
+		for _, d := range s.dsNames() {
 			s.checkC01Dataset(d)
 		}
 		s.checkC01Lookups()
 	}
 	if s.ctx.Has("C02") {
-		for _, d := range s.c.Datasets {
+		for _, d := range s.dsNames() {
 			s.checkC02Dataset(d)
 		}
 		for _, rd := range s.readers {
